@@ -716,7 +716,15 @@ func (w *vfC15World) deleteMarkerBlock(r *vfC15Raw, op vfC15Op) bool {
 		return false
 	}
 	for name, d := range r.dbs() {
-		if name != w.dbNames[op.db] && d.Version == "0-0" && len(d.Scopes) == 0 {
+		if name == w.dbNames[op.db] {
+			continue
+		}
+		if d.Version == "0-0" && len(d.Scopes) == 0 {
+			return true
+		}
+		// the same marker carried along as previous_version by a re-creation that was interrupted in turn
+		// (a database that really uses the default collection lists it explicitly, also in previous_version)
+		if d.Previous != nil && len(d.Previous.Scopes) == 0 {
 			return true
 		}
 	}
